@@ -54,6 +54,7 @@ type Stack struct {
 	Opt   Options
 	Rec   *rec.Recorder
 	Sup   *FakeSup
+	Gates *Gates
 	Srv   *rapidcore.Server
 	State func() statejson.InternalStateDescription
 	Addr  string
@@ -117,6 +118,7 @@ func New(opt Options) (*Stack, error) {
 		}
 	}
 	sup := NewFakeSup(r)
+	gates := newGates(r)
 	for _, n := range opt.LaunchFail {
 		sup.LaunchFail[n] = true
 	}
@@ -152,7 +154,7 @@ func New(opt Options) (*Stack, error) {
 	srv := b.DefaultInteropServer()
 	srv.SetSandboxContext(sbCtx)
 	srv.SetInternalStateGetter(stateFn)
-	s := &Stack{Opt: opt, Rec: r, Sup: sup, Srv: srv, State: stateFn, Addr: addr, Root: root,
+	s := &Stack{Opt: opt, Rec: r, Sup: sup, Gates: gates, Srv: srv, State: stateFn, Addr: addr, Root: root,
 		HTTP:     &http.Client{Transport: &http.Transport{DisableKeepAlives: true, MaxIdleConns: 0}},
 		bodies:   map[string]string{},
 		intAgent: map[string]string{}, intGen: map[string]int{}}
@@ -179,6 +181,7 @@ func (s *Stack) Close() { os.RemoveAll(s.Root) }
 
 // AbortClients ends every outstanding client call (end of scenario): no supervisor events.
 func (s *Stack) AbortClients() {
+	s.Gates.ReleaseAll()
 	s.cancel()
 	for _, p := range s.Sup.All() {
 		p.cancel()
